@@ -247,6 +247,7 @@ type c10Result struct {
 	sawOOG        bool
 	sawPrecompile bool
 	sawIdentity   bool
+	gasCreated    string // a callee was handed more gas than the CALL asked for (+ stipend)
 	gasTaint      bool
 	foreignOp     bool // executed an opcode the other VM does not define the same way
 	steps         int
@@ -334,6 +335,8 @@ type c10Tracer struct {
 	depth   int
 	crt     []bool
 	topCrt  bool
+	reqGas  *big.Int // gas argument of the CALL-family opcode being executed
+	reqVal  bool     // ... which transfers value (callee also gets the stipend)
 }
 
 func c10IsPrecompileAddr(a common.Address) bool {
@@ -380,6 +383,14 @@ func (t *c10Tracer) CaptureState(pc uint64, op OpCode, gas, cost uint64, scope *
 		return
 	}
 	st := scope.Stack
+	t.reqGas = nil
+	switch op {
+	case CALL, CALLCODE, DELEGATECALL, STATICCALL:
+		if st.len() >= 3 {
+			t.reqGas = st.Back(0).ToBig()
+			t.reqVal = (op == CALL || op == CALLCODE) && !st.Back(2).IsZero()
+		}
+	}
 	if t.lastGas[depth] {
 		switch op {
 		case CALL, CALLCODE, DELEGATECALL, STATICCALL:
@@ -407,6 +418,16 @@ func (t *c10Tracer) CaptureState(pc uint64, op OpCode, gas, cost uint64, scope *
 func (t *c10Tracer) CaptureEnter(typ OpCode, from common.Address, to common.Address, input []byte, gas uint64, value *big.Int) {
 	t.cands[from], t.cands[to] = true, true
 	t.crt = append(t.crt, typ == CREATE || typ == CREATE2)
+	if typ != CREATE && typ != CREATE2 && t.reqGas != nil {
+		lim := new(big.Int).Set(t.reqGas)
+		if t.reqVal {
+			lim.Add(lim, new(big.Int).SetUint64(configs.CallStipend))
+		}
+		if new(big.Int).SetUint64(gas).Cmp(lim) > 0 {
+			t.res.gasCreated = fmt.Sprintf("%s asked for %s gas (value transfer: %v) but the callee received %d", typ, t.reqGas, t.reqVal, gas)
+		}
+	}
+	t.reqGas = nil
 	if typ != CREATE && typ != CREATE2 && c10IsUnmodelledPrecompile(to) {
 		t.res.sawPrecompile = true
 	}
@@ -1286,7 +1307,115 @@ func c10Weighted(r *c10Rand, v2 bool) []byte {
 func c10Boundary(r *c10Rand, c *c10Case, self, other common.Address) (code []byte, otherCode []byte, name string) {
 	a := newAsm()
 	ret32 := func() { a.push(0).op(MSTORE).push(32).push(0).op(RETURN) }
-	switch k := r.Intn(23); k {
+	switch k := r.Intn(27); k {
+	case 23, 24, 25: // systematic offset/length matrix for every offset-taking opcode
+		name = "offset-matrix"
+		two := func(n uint) *big.Int { return new(big.Int).Lsh(big.NewInt(1), n) }
+		var offs []*big.Int
+		for _, v := range []int64{0, 1, 31, 32, 33} {
+			offs = append(offs, big.NewInt(v))
+		}
+		for _, n := range []uint{32, 63} {
+			for d := int64(-1); d <= 1; d++ {
+				offs = append(offs, new(big.Int).Add(two(n), big.NewInt(d)))
+			}
+		}
+		for d := int64(-33); d <= 1; d++ {
+			offs = append(offs, new(big.Int).Add(two(64), big.NewInt(d)))
+		}
+		offs = append(offs, two(128), new(big.Int).Set(c10Max))
+		lens := []*big.Int{big.NewInt(0), big.NewInt(1), big.NewInt(32), big.NewInt(33)}
+		bigOff := func() *big.Int {
+			if r.Chance(1, 3) {
+				return offs[r.Intn(5)]
+			}
+			return offs[r.Intn(len(offs))]
+		}
+		smallOff := func() *big.Int { return big.NewInt(int64([]int{0, 1, 31, 32, 33, 64}[r.Intn(6)])) }
+		ln := func() *big.Int {
+			if r.Chance(1, 8) {
+				return offs[r.Intn(len(offs))]
+			}
+			return lens[r.Intn(len(lens))]
+		}
+		// where the extreme value goes: 0 = first offset, 1 = second offset (if any), 2 = both
+		pick := func(i int, which int) *big.Int {
+			if which == 2 || which == i {
+				return bigOff()
+			}
+			return smallOff()
+		}
+		which := r.Intn(3)
+		// optional return data from a previous call
+		if r.Chance(2, 3) {
+			w := newAsm()
+			w.push(0x1122334455).push(0).op(MSTORE)
+			w.push(uint64([]int{0, 1, 32, 33, 64}[r.Intn(5)])).push(0)
+			w.op([]OpCode{RETURN, REVERT}[r.Pick(3, 1)])
+			otherCode = w.bytes()
+			a.push(0).push(0).push(0).push(0).push(0).pushAddr(other).op(GAS, CALL, POP)
+		}
+		a.push(0xa1a2a3a4).push(0).op(MSTORE)
+		op := []OpCode{RETURNDATACOPY, CALLDATACOPY, CODECOPY, EXTCODECOPY, CALLDATALOAD, MLOAD, MSTORE, MSTORE8, SHA3,
+			LOG0, LOG2, RETURN, REVERT, CREATE, CREATE2, CALL, CALLCODE, DELEGATECALL, STATICCALL}[r.Intn(19)]
+		switch op {
+		case RETURNDATACOPY, CALLDATACOPY, CODECOPY:
+			a.pushBig(ln()).pushBig(pick(1, which)).pushBig(pick(0, which)).op(op)
+		case EXTCODECOPY:
+			a.pushBig(ln()).pushBig(pick(1, which)).pushBig(pick(0, which)).pushAddr(other).op(op)
+		case CALLDATALOAD, MLOAD:
+			a.pushBig(bigOff()).op(op).op(POP)
+		case MSTORE, MSTORE8:
+			a.push(0xbeef).pushBig(bigOff()).op(op)
+		case SHA3:
+			a.pushBig(ln()).pushBig(bigOff()).op(op).op(POP)
+		case LOG0:
+			a.pushBig(ln()).pushBig(bigOff()).op(op)
+		case LOG2:
+			a.push(7).push(8).pushBig(ln()).pushBig(bigOff()).op(op)
+		case RETURN, REVERT:
+			a.pushBig(ln()).pushBig(bigOff()).op(op)
+		case CREATE:
+			a.pushBig(ln()).pushBig(bigOff()).push(0).op(op).op(POP)
+		case CREATE2:
+			a.push(uint64(r.Intn(3))).pushBig(ln()).pushBig(bigOff()).push(0).op(op).op(POP)
+		default: // CALL family: in and out regions
+			a.pushBig(ln()).pushBig(pick(1, which)) // retSize retOff
+			a.pushBig(ln()).pushBig(pick(0, which)) // inSize inOff
+			if op == CALL || op == CALLCODE {
+				a.push(0)
+			}
+			a.pushAddr([]common.Address{other, common.BytesToAddress([]byte{4}), common.BytesToAddress([]byte{0xde, 0xad, 0x01})}[r.Intn(3)])
+			a.op(GAS).op(op).op(POP)
+		}
+		a.op(MSIZE).push(64).op(MSTORE)
+		a.push(96).push(0).op(RETURN)
+		if r.Chance(1, 3) {
+			c.gas = 20000000
+		}
+	case 26: // several CALL-family opcodes in one frame with different explicit gas arguments
+		name = "call-gas-sequence"
+		w := newAsm()
+		w.op(GAS).push(0).op(MSTORE).push(32).push(0).op(RETURN) // callee reports the gas it received
+		otherCode = w.bytes()
+		gases := []uint64{1000000, 100000, 50000, 20000, 5000, 2300, 700, 100, 0}
+		n := 2 + r.Intn(3)
+		for i := 0; i < n; i++ {
+			kind := []OpCode{CALL, CALLCODE, DELEGATECALL, STATICCALL}[r.Intn(4)]
+			a.push(32).push(uint64(32 * i)).push(0).push(0)
+			if kind == CALL || kind == CALLCODE {
+				a.push(uint64(r.Intn(4) / 3)) // value 1 now and then (stipend)
+			}
+			a.pushAddr(other)
+			if r.Chance(1, 6) {
+				a.op(GAS)
+			} else {
+				a.push(gases[r.Intn(len(gases))])
+			}
+			a.op(kind)
+			a.push(uint64(i)).op(SSTORE)
+		}
+		a.push(uint64(32 * n)).push(0).op(RETURN)
 	case 22: // identity precompile: RETURNDATA must be a copy (EVM specification)
 		name = "identity-returndata"
 		A, B := r.Bytes(32), r.Bytes(32)
@@ -1758,6 +1887,9 @@ func TestVerifC10(t *testing.T) {
 		}
 		if c.specRet != nil && res.panic == "" && res.class == "ok" && !bytes.Equal(res.ret, c.specRet) {
 			o.Fail(0, "kvm-identity-returndata-aliased", fmt.Sprintf("kind=%s RETURNDATA after a call to the identity precompile 0x04 changed when the caller overwrote its own memory: got %x, EVM specification %x (dataCopy.Run returns its input slice uncopied)", c.kind, res.ret, c.specRet))
+		}
+		if res.gasCreated != "" {
+			o.Fail(0, "kvm-callee-gas-exceeds-request", fmt.Sprintf("kind=%s %s", c.kind, res.gasCreated))
 		}
 		if res.gasLeft > c.gas {
 			o.Fail(0, "kvm-gas-increase", fmt.Sprintf("gas %d -> %d", c.gas, res.gasLeft))
